@@ -245,7 +245,35 @@ def r6(p, rep):
                 top = top.parent
             text_params = [a for a in top.params[:1]]
             ok = isinstance(arg0, ast.Name) and arg0.id in text_params and not _reassigned(top, arg0.id)
-            rep.add("C03.R6", key, site, ok, f"first argument {src(arg0) if arg0 is not None else None!r}; caller text parameter of {top.name} is {text_params}")
+            via = ""
+            if not ok and f.cls is not None and isinstance(arg0, ast.Attribute) and isinstance(arg0.value, ast.Name) and f.params and arg0.value.id == f.params[0]:
+                ok, via = _field_is_callers_text(p, f.cls, arg0.attr)
+            rep.add("C03.R6", key, site, ok, f"first argument {src(arg0) if arg0 is not None else None!r}; caller text parameter of {top.name} is {text_params}{via}")
+
+
+def _field_is_callers_text(p, cls, attr):
+    """`self.<attr>` of a helper object: bound once, in __init__, to a constructor parameter, and every construction
+    of the class passes the first parameter of the enclosing top-level function, unmodified"""
+    stores = [(mth, a) for mth in cls.methods.values() for a in ast.walk(mth.node) if isinstance(a, ast.Attribute) and a.attr == attr and isinstance(a.ctx, (ast.Store, ast.Del))]
+    init = cls.methods.get("__init__")
+    if init is None or len(stores) != 1 or stores[0][0] is not init:
+        return False, ""
+    asg = getattr(stores[0][1], "_parent", None)
+    if not (isinstance(asg, ast.Assign) and isinstance(asg.value, ast.Name) and asg.value.id in init.params[1:]) or _reassigned(init, asg.value.id):
+        return False, ""
+    idx = init.params.index(asg.value.id) - 1
+    sites = 0
+    for g in p.funcs.values():
+        for c in walk_no_nested(g.node):
+            if isinstance(c, ast.Call) and resolve_callee(p, c, g.module) == ("class", cls):
+                a = c.args[idx] if idx < len(c.args) else common.kwarg(c, asg.value.id)
+                top = g
+                while top.parent is not None:
+                    top = top.parent
+                if not (isinstance(a, ast.Name) and a.id in top.params[:1] and not _reassigned(top, a.id)):
+                    return False, ""
+                sites += 1
+    return sites > 0, f" (field of {cls.name}, constructed {sites}x with the caller's text)"
 
 
 def _reassigned(func, name):
